@@ -212,3 +212,69 @@ func CalleeWrites(b *Big) {
 	b.n = 1
 	setM(b)
 }
+
+// fourth round
+
+type Vec [4]int64
+
+type Inner struct{ Gs []uint64 }
+
+type Deep struct {
+	bits  uint64
+	inner Inner
+	next  *Deep
+}
+
+func (d *Deep) Moved() *Inner { x := &d.inner; return x }
+
+// a computed index into an abstract array parameter that has no whole-array view
+func IndexNoAll(w *Vec, k int) int64 { return w[k] }
+
+// the listed path accessor no longer is `return &d.inner`
+func AccessorChanged(d *Deep) int {
+	in := d.Moved()
+	return len(in.Gs)
+}
+
+// a closure reading a field the function assigns through
+func ClosureTracked(b *Big) {
+	f := func(k int) int { return k + b.n }
+	b.n = f(1)
+}
+
+// the out-parameter is assigned as a whole
+func OutWhole(out []uint64) {
+	out[0] = 1
+	out = nil
+}
+
+func fillOne(out []uint64) { out[0] = 1 }
+
+func mkSlice() []uint64 { return make([]uint64, 1) }
+
+// the argument for an out-parameter is not a local variable
+func OutArg() uint64 {
+	fillOne(mkSlice())
+	return 0
+}
+
+// the variable given to an out-parameter has a second name
+func OutAliased() uint64 {
+	a := make([]uint64, 2)
+	b := a
+	fillOne(a[:])
+	return b[0]
+}
+
+// `for {}` that can only be left by return inside a closure without fuel
+func ForeverNoFuel(s uint32) int {
+	n := 0
+	for {
+		if s == 0 {
+			break
+		}
+		n++
+		s >>= 1
+	}
+	return n
+}
